@@ -714,6 +714,33 @@ class Prov:
         return None
 
 
+def enum_const_cases(fn, pa, op, depth=0):
+    """the constant unit variants an operand can hold: [(variant, block where that constant is chosen)], or None when some
+    definition is not a constant variant. `f(Kind::A)` in each arm of a match and `let k = match .. { .. => Kind::A, .. };
+    f(k)` give the same cases; the block is where the guards that select the variant can be read (the call block itself
+    for a literal argument, the defining block for a local assigned in several arms)"""
+    r = pa.root(fn, op)
+    if r[0] == "agg" and not (len(r) > 3 and fn.blocks[r[3]]["s"][r[4]][2][4] if r[3] >= 0 else False):
+        return [(r[2], r[3] if r[3] >= 0 else None)]
+    if r[0] == "local" and not r[3] and depth < 4:
+        out = []
+        for bi, si, kind, payload in fn.defs().get(r[1], []):
+            if kind != "assign":
+                return None
+            rv = payload
+            if rv[0] == "agg" and not rv[4]:
+                out.append((rv[2], bi))
+            elif rv[0] == "use" and rv[1][0] != "k":
+                sub = enum_const_cases(fn, pa, rv[1], depth + 1)
+                if sub is None:
+                    return None
+                out += [(v, b if b is not None else bi) for v, b in sub]
+            else:
+                return None
+        return out or None
+    return None
+
+
 def root_str(r):
     """compact printable form of a root"""
     if r is None:
